@@ -25,7 +25,7 @@ def seeds_for(b, c, tier):
         out.append(('ber', d, v))
         # an indefinite-length / constructed variant widens the reachable decoder states
         try:
-            vs = ber.variants(lambda ch: ber.encode(b.mod, t, v, ch), 1, cap=40)
+            vs = ber.variants(lambda ch: ber.encode_policy(b.mod, t, v, ch), 1, cap=40)
             for enc, ch in vs:
                 if any(l.startswith('len:') and cc == 2 for _, l, cc in ch.deviations()):
                     out.append(('ber', enc, v))
@@ -74,7 +74,7 @@ def make_worker(tier):
             start = 0
             hangs = 0
             for attempt in range(30):
-                mask = 'uper,oer' if 'has_SET' in fe else ('oer' if 'k:ObjectDescriptor' in fe else '')
+                mask = ''   # (types without a PER/OER codec used to crash here; repaired, so nothing is masked any more)
                 line = 'mut %s %s %s %s %d%s' % (c.name, syn, enc.hex() or '-', classes, start, (' mask=' + mask) if mask else '')
                 r = common.run_driver(b.exe, [line], watchdog=300)[0]
                 if r.crash is not None:
